@@ -480,7 +480,7 @@ func c18scriptChild(raw json.RawMessage, scratch string) {
 	r := wk.ChildRes("C18")
 	base := prng.New(a.Seed).Split(0xC18)
 	for i := a.Start; i < a.End; i++ {
-		rng := base.Split(uint64(i))
+		rng := base.At(uint64(i))
 		var prog *c18prog
 		if ex.File {
 			prog = genBacklogScript(rng, "file", rng.Pick(4<<20, 4<<20, 8<<20, 12<<20))
@@ -705,7 +705,7 @@ func c18histChild(raw json.RawMessage, scratch string) {
 	r := wk.ChildRes("C18")
 	base := prng.New(a.Seed).Split(0xB18)
 	for i := a.Start; i < a.End; i++ {
-		rng := base.Split(uint64(i))
+		rng := base.At(uint64(i))
 		hc := &histCase{Backend: "mem", Cap: rng.Pick(4096, 8192), Seed: rng.U64() >> 8, Readers: rng.Range(2, 4), Writes: rng.Range(20, 60)}
 		if ex.File {
 			hc.Backend, hc.Cap = "file", 4<<20
